@@ -1,15 +1,16 @@
 import VoluteModel.Lemmas.CanonMain
 import VoluteModel.Lemmas.SeqCore
-import VoluteModel.Lemmas.SeqGen8
+import VoluteModel.Lemmas.Sjt
 import VoluteModel.Lemmas.Gray
 
 /-!
 # Facts about the swap / flip sequences in use
 
 For n <= 6 the sequences are the tables `SWAPS` / `FLIPS` regenerated from /repo/src (T1) and the
-Boolean checks of `SeqCore` are evaluated on them here; for n = 7, 8 they are the model of the
-runtime generators, evaluated in `SeqCore` (tied to the Rust generators by the
-`verif_canon_sequences` / `verif_last_sequences` hooks in the correspondence run).
+Boolean checks of `SeqCore` are evaluated on them here, in the kernel; for n >= 7 they are the model
+of the run-time generators (tied to the Rust generators by the `verif_canon_sequences` /
+`verif_last_sequences` hooks in the correspondence run), about which the same facts are proved
+for every n in `Gray.lean` and `Sjt.lean`.
 -/
 
 namespace VoluteModel
@@ -59,20 +60,30 @@ theorem swapFacts_of (n : Nat) (swaps : List Nat) (h : swapFactsB n swaps = true
   simpa [Array.toList_range] using this
 
 
-/-- the walk visits pairwise distinct permutations and has `len` steps -/
-structure SwapCover (n len : Nat) (swaps : List Nat) : Prop where
-  distinct : distinctPermsB n swaps = true
-  length : swaps.length = len
+/-- the walk visits pairwise distinct permutations and has n! steps -/
+structure SwapCover (n : Nat) (swaps : List Nat) : Prop where
+  nodup : (prefixPerms (List.range n) swaps).Nodup
+  length : swaps.length = factL n
 
 /-- the Gray walk visits pairwise distinct masks and has 2^n steps -/
 structure FlipCover (n : Nat) (flips : List Nat) : Prop where
   nodup : (prefixXors 0 flips).Nodup
   length : flips.length = 2 ^ n
 
-theorem swapAll_of (n len : Nat) (swaps : List Nat) (h : swapAllB n len swaps = true) :
-    SwapFacts n swaps ∧ SwapCover n len swaps := by
-  obtain ⟨h1, h2, h3⟩ := swapAllB_spec n len swaps h
-  exact ⟨swapFacts_of n swaps h1, ⟨h2, h3⟩⟩
+theorem swapAll_of (n : Nat) (swaps : List Nat) (h : swapAllB n (factL n) swaps = true) :
+    SwapFacts n swaps ∧ SwapCover n swaps := by
+  obtain ⟨h1, h2, h3⟩ := swapAllB_spec n (factL n) swaps h
+  exact ⟨swapFacts_of n swaps h1, ⟨prefixPerms_nodup n swaps h2, h3⟩⟩
+
+/-- the same from list-level facts (the form in which `Sjt.lean` proves them for the generator) -/
+theorem swapFacts_of_list (n : Nat) (swaps : List Nat) (hv : ∀ s ∈ swaps, s + 1 < n) (hne : swaps ≠ [])
+    (hc : swaps.foldl (fun q s => swapAdjL s q) (List.range n) = List.range n) : SwapFacts n swaps := by
+  refine ⟨hv, hne, ?_⟩
+  have h := permAfterL_eq n swaps
+  unfold permAfterL at h
+  rw [foldForce_eq, hc] at h
+  apply Array.ext'
+  simpa [Array.toList_range] using h.symm
 
 theorem flipAll_of (n : Nat) (flips : List Nat) (h : flipAllB n flips = true) :
     FlipFacts n flips ∧ FlipCover n flips := by
@@ -80,16 +91,13 @@ theorem flipAll_of (n : Nat) (flips : List Nat) (h : flipAllB n flips = true) :
   simp only [Bool.and_eq_true, beq_iff_eq] at h
   exact ⟨flipFacts_of n flips h.1.1, ⟨prefixXors_nodup flips h.1.2, h.2⟩⟩
 
-/-- n! for n <= 8 -/
-def factTable : List Nat := [1, 1, 2, 6, 24, 120, 720, 5040, 40320]
-
 /-- T1: the flip tables FLIPS[1..6] of the source -/
 theorem flips_table : ∀ n : Fin 7, 1 ≤ n.val → flipAllB n.val ((FLIPS[n.val]?).getD []) = true := by
   decide +kernel
 
 /-- T1: the swap tables SWAPS[2..6] of the source -/
 theorem swaps_table : ∀ n : Fin 7, 2 ≤ n.val →
-    swapAllB n.val (factTable[n.val]?.getD 0) ((SWAPS[n.val]?).getD []) = true := by
+    swapAllB n.val (factL n.val) ((SWAPS[n.val]?).getD []) = true := by
   decide +kernel
 
 /-- the flip sequence used for `n` variables is a closed Hamiltonian walk of the n-cube: the tables
@@ -108,8 +116,11 @@ theorem flipsFor_facts (n : Nat) (h1 : 1 ≤ n) (h64 : n ≤ 64) :
   · obtain ⟨⟨v, c, ne⟩, nd, len⟩ := gray_flips_facts n h1 h64
     exact ⟨generateGrayFlips n true, by simp [flipsFor, h6], ⟨v, c, ne⟩, ⟨nd, len⟩⟩
 
-theorem swapsFor_facts (n : Nat) (h2 : 2 ≤ n) (h8 : n ≤ 8) :
-    ∃ sw, swapsFor n = some sw ∧ SwapFacts n sw ∧ SwapCover n (factTable[n]?.getD 0) sw := by
+/-- the swap sequence used for `n` variables is a closed Hamiltonian walk of the symmetric group by
+    adjacent transpositions: the tables of the source for n <= 6 (kernel evaluation), the run-time
+    generator for every n >= 7 (`Lemmas/Sjt.lean`) -/
+theorem swapsFor_facts (n : Nat) (h2 : 2 ≤ n) :
+    ∃ sw, swapsFor n = some sw ∧ SwapFacts n sw ∧ SwapCover n sw := by
   by_cases h6 : n ≤ 6
   · have hlt : n < SWAPS.size := by
       have : SWAPS.size = 7 := by decide
@@ -117,22 +128,8 @@ theorem swapsFor_facts (n : Nat) (h2 : 2 ≤ n) (h8 : n ≤ 8) :
     refine ⟨SWAPS[n], by simp [swapsFor, h6, hlt], ?_⟩
     have := swaps_table ⟨n, by omega⟩ h2
     simp only [Array.getElem?_eq_getElem hlt, Option.getD_some] at this
-    exact swapAll_of n _ _ this
-  · by_cases h7 : n = 7
-    · subst h7
-      have g := swaps_gen7
-      match hg : generateSwaps 7 true with
-      | none => rw [hg] at g; cases g
-      | some sw =>
-        rw [hg] at g
-        exact ⟨sw, by simp [swapsFor, hg], swapAll_of 7 _ sw g⟩
-    · have : n = 8 := by omega
-      subst this
-      have g := swaps_gen8
-      match hg : generateSwaps 8 true with
-      | none => rw [hg] at g; cases g
-      | some sw =>
-        rw [hg] at g
-        exact ⟨sw, by simp [swapsFor, hg], swapAll_of 8 _ sw g⟩
+    exact swapAll_of n _ this
+  · obtain ⟨sw, hgen, hv, hne, hc, hnd, hlen⟩ := generateSwaps_facts n h2
+    exact ⟨sw, by simp [swapsFor, h6, hgen], swapFacts_of_list n sw hv hne hc, ⟨hnd, hlen⟩⟩
 
 end VoluteModel
